@@ -247,3 +247,49 @@ UNITS = [
     Unit("TimeoutExecutor.submit", "timeout.TimeoutExecutor.submit", ["C01", "C09"], _setup_entry("TimeoutExecutor"), _post_entry_star,
          cfg=_cfg_entry_star("more_executors._impl.timeout.TimeoutExecutor.submit_timeout"), self_cls="TimeoutExecutor"),
 ]
+
+
+# ---- f_return / f_return_error / f_return_cancelled: futures that are already resolved when handed out (C02 hand-out rule, C13, C15) ----
+def _cfg_ret():
+    cfg = make_cfg(concurrent=False)
+    cfg.contracts["more_executors._impl.metrics.track_future"] = RecordCall()
+    return cfg
+
+
+def _setup_ret(kind):
+    def setup(engine, st):
+        if kind == "value":
+            x = sym_val(engine, st, "any", "x")
+            return [x], {}, {"x": x, "kind": kind}
+        if kind == "error":
+            x = sym_val(engine, st, "exc", "x")
+            return [x], {}, {"x": x, "kind": kind}
+        return [], {}, {"kind": kind}
+    return setup
+
+
+def _post_ret(engine, st, ctx, out):
+    cl = [("does not raise", "EX", not isinstance(out, Raise), ["C02", "C13"])]
+    if isinstance(out, Raise):
+        return cl
+    oid = Val.id(engine.to_val(st, out))
+    tr = [e for e in st.trace if e.kind == "repo-call" and e.meth.endswith(".track_future")]
+    cl.append(("a fresh plain Future is created, tracked once and returned", "PC",
+               z3.And(z3.BoolVal(len(tr) == 1 and engine.concrete_id(engine.to_val(st, out)) is not None), tr[0].args[0] == engine.to_val(st, out) if tr else False,
+                      cls_of(oid) == engine.tag("Future")), ["C02", "C20"]))
+    if ctx["kind"] == "value":
+        cl.append(("f_return(x) is already finished with exactly x (no exception): nobody can ever be blocked on it", "PC",
+                   z3.And(st.finished(oid), st.fresult(oid) == ctx["x"].t, Val.is_none(st.fexc(oid))), ["C02", "C13", "C15", "C03"]))
+    elif ctx["kind"] == "error":
+        cl.append(("f_return_error(e) is already finished, failed with exactly e", "PC", z3.And(st.finished(oid), st.fexc(oid) == ctx["x"].t), ["C02", "C13", "C03"]))
+    else:
+        from pyvc.vals import CANCELLED_AND_NOTIFIED as _CAN
+        cl.append(("f_return_cancelled() is cancelled AND its waiters are notified (CANCELLED_AND_NOTIFIED)", "PC", st.fstate(oid) == _CAN, ["C02", "C03"]))
+    return cl
+
+
+UNITS += [
+    Unit("f_return", "futures.base.f_return", ["C02", "C13", "C15", "C03", "C20"], _setup_ret("value"), _post_ret, cfg=_cfg_ret),
+    Unit("f_return_error", "futures.base.f_return_error", ["C02", "C13", "C03", "C20"], _setup_ret("error"), _post_ret, cfg=_cfg_ret),
+    Unit("f_return_cancelled", "futures.base.f_return_cancelled", ["C02", "C03", "C20"], _setup_ret("cancelled"), _post_ret, cfg=_cfg_ret),
+]
